@@ -402,7 +402,14 @@ func (f *Frame) exec(c *cursor, in ssa.Instruction) bool {
 			f.setVal(x, f.fromInt(sByte(s, i), x.Type()))
 			return false
 		}
-		e.fail("%s: Index on array value", f.fn.Name())
+		if at, ok := x.X.Type().Underlying().(*types.Array); ok {
+			arr, i := f.val(x.X), f.asInt(f.val(x.Index))
+			f.guard(c, "bounds", x, and(le(intLit(0), i), lt(i, intLit(at.Len()))))
+			d := f.setVal(x, sel(arr, i, e.U.sortOf(at.Elem(), false)))
+			f.typeFacts(d, x.Type(), st)
+			return false
+		}
+		e.fail("%s: Index on %s", f.fn.Name(), x.X.Type())
 		return false
 	case *ssa.Lookup:
 		f.execLookup(c, x)
@@ -530,6 +537,14 @@ func (f *Frame) execStore(c *cursor, x *ssa.Store) {
 		e.warn("%s: copy of opaque %s ignored", f.fn.Name(), typeName(vt))
 		return
 	}
+	if at, ok := vt.Underlying().(*types.Array); ok {
+		if _, isLv := f.lvals[x.Addr]; !isLv {
+			es := e.U.sortOf(at.Elem(), false)
+			fam := memFam(es)
+			e.setFamily(st, fam, store(e.family(st, fam, memSort(es)), f.val(x.Addr), f.val(x.Val)))
+			return
+		}
+	}
 	lv := f.lvalOf(x.Addr, st)
 	if lv.kind == 0 {
 		if _, isLv := f.lvals[x.Addr]; !isLv {
@@ -601,6 +616,13 @@ func (f *Frame) execUnOp(c *cursor, x *ssa.UnOp) {
 		if opaqueStruct(et) != "" {
 			f.setVal(x, f.val(x.X))
 			return
+		}
+		if at, ok := et.Underlying().(*types.Array); ok {
+			if _, isLv := f.lvals[x.X]; !isLv {
+				es := e.U.sortOf(at.Elem(), false)
+				f.setVal(x, sel(e.family(st, memFam(es), memSort(es)), f.val(x.X), arraySort(SInt, es)))
+				return
+			}
 		}
 		lv := f.lvalOf(x.X, st)
 		if _, isLv := f.lvals[x.X]; !isLv && lv.kind == 0 {
